@@ -91,6 +91,27 @@ def configured_model(cfg, how, other):
 def run_tables(desc):
     cfg = desc["cfg"]
     out = check_model(cfg, None)
+    if desc.get("touch_after_read") and sg.lt_varies(cfg["lt"]):
+        # the caller keeps its parameter arrays and updates them in place after the tables were read (next scenario);
+        # whatever the model holds afterwards, its tables must agree with its OWN public parameter attributes
+        U = sg.universe_of(cfg)
+        letters = gen.uletters(U)
+        handed = {k: sg.build_prm(U, p) for k, p in cfg["lt"]["prms"].items()}
+        if desc["touch_after_read"] == "set_prms":
+            mdl = getattr(build.fd, cfg["lt"]["cls"])(dims=build.dimset(U, letters), time_letter="t", inflow_at=cfg["lt"].get("inflow_at", "middle"), n_pts_per_interval=cfg["lt"].get("n_pts", 1))
+            mdl.set_prms(**handed)
+        else:
+            mdl = getattr(build.fd, cfg["lt"]["cls"])(dims=build.dimset(U, letters), time_letter="t", inflow_at=cfg["lt"].get("inflow_at", "middle"), n_pts_per_interval=cfg["lt"].get("n_pts", 1), **handed)
+        _ = mdl.sf, mdl.pdf
+        for a_ in handed.values():
+            if hasattr(a_, "values"):
+                a_.values[...] = a_.values * 1.5
+        own = {}
+        for name in cfg["lt"]["prms"]:
+            arr_ = np.asarray(getattr(mdl, name), float)
+            own[name] = {"kind": "array", "letters": letters, "vals": [float(v) for v in arr_.reshape(-1)]}
+        check_model(dict(cfg, lt=dict(cfg["lt"], prms=own)), mdl, pre="tables-vs-own-parameters-")
+        out["classes"].append("caller-updated-its-arrays-after-read")
     if desc.get("configure"):
         c = desc["configure"]
         check_model(cfg, configured_model(cfg, c["how"], c), pre="settings-assigned-")
@@ -210,6 +231,7 @@ def table_cases(draw, max_n=8):
         elif keep == "last":
             new = {names[-1]: new[names[-1]]}
         d["reprm"] = new
+    d["touch_after_read"] = draw(st.sampled_from([None, None, None, "ctor", "set_prms"]))
     if draw(st.integers(0, 3)) == 0:
         d["configure"] = {
             "how": draw(st.sampled_from(["assign-before-use", "assign-after-use", "stock-class"])),
